@@ -462,7 +462,8 @@ func isCanonicalNaN(l string) bool {
 		return hi&^(1<<63) == 0x7FFF800000000000 && lo == 0
 	case 'M':
 		hi := new(big.Int).Rsh(v, 64).Uint64()
-		return hi&^(1<<63) == 0x7FF8000000000000
+		lo := new(big.Int).And(v, new(big.Int).SetUint64(^uint64(0))).Uint64()
+		return hi&^(1<<63) == 0x7FF8000000000000 && lo == 0
 	}
 	return false
 }
